@@ -102,6 +102,7 @@ def cases(tier, seed):
         for s in range(0, total, block):
             yield dict(kind='patterns', nx=nx, ny=ny, maxc=maxc, start=s, stop=min(total, s + block))
     yield dict(kind='placements', k=2 if tier == 'quick' else 3)
+    yield dict(kind='sparse')
     yield dict(kind='binspecs')
     for scale in itertools.product(['linear', 'log', 'logicle'], repeat=2):
         yield dict(kind='sample', xscale=scale[0], yscale=scale[1])
@@ -203,6 +204,9 @@ def judge(res, sig, what, data, channels, cols, bins_arg, f, sigma, one, expect_
         least = [(bx, by) for bx, by in kept_bins if D[bx][by] <= dmin + 1e-9 * mx]
         if any(kept - H[bx][by] < tgt for bx, by in least):
             ok3 = True
+    if ok3 and max(targets) == 0 and bm.any():
+        res.violation(sig + ':surplus-bin', '%s: nothing has to be kept (%d in-grid events, target 0), yet the bin mask keeps %d bin(s)' % (what, n_in, int(bm.sum())), one)
+        return None
     if not ok3:
         res.violation(sig + ':count', '%s keeps %d of %d in-grid events; ceil(f*n) = %s and dropping a least dense kept bin must fall below it' % (
             what, kept, n_in, sorted(targets)), one)
@@ -320,6 +324,43 @@ def run_placements(c, res):
                             masks.append((f, m))
                         nested_check(res, 'placements', 'density2d(events %r, sigma=%r)' % (ev, sigma), masks, ing, dict(c))
     res.sample({'base_occupancies': bases, 'special_positions': [repr(s) for s in specials], 'max_moved_events': c['k']})
+
+
+def run_sparse(c, res):
+    """samples of two and more events of which none, or exactly one, lies inside the binning grid (a legal sample: the gate then keeps
+    nothing, or that one event's bin)"""
+    xe, ye = [0.0, 1.0, 2.0, 3.0], [0.0, 2.0, 4.0]
+    outside = [(-1.0, 1.0), (5.0, 1.0), (1.5, -3.0), (1.5, 9.0), (float('nan'), 1.0), (-2.0, -2.0), (float('inf'), 3.0)]
+    inside = [(0.5, 1.0), (2.5, 3.0), (0.0, 0.0), (3.0, 4.0), (1.0, 2.0)]
+    n = 0
+    for n_out in (2, 3, 5):
+        for start in range(len(outside)):
+            outs = [outside[(start + i) % len(outside)] for i in range(n_out)]
+            for ins in [()] + [(p,) for p in inside]:
+                for where in ((0,) if not ins else (0, 1, n_out)):
+                    ev = [list(e) for e in outs]
+                    for p in ins:
+                        ev.insert(where, list(p))
+                    arr = np.array(ev)
+                    ing = np.array([assign(x, xe) is not None and assign(y, ye) is not None for x, y in ev])
+                    for sigma in (0.0, 1.0, [0.5, 2.0]):
+                        for bins_kind in ('edges', 'mixed'):
+                            masks = []
+                            for f in (0.0, 0.3, 1.0):
+                                one = dict(kind='sparse-one', events=[[repr(a), repr(b)] for a, b in ev], f=f, sigma=sigma, bins=bins_kind)
+                                what = 'density2d(events %r, %s, gate_fraction=%r, sigma=%r)' % (ev, 'edges %r x %r' % (xe, ye) if bins_kind == 'edges' else 'bins=[x edges %r, 4]' % (xe,), f, sigma)
+                                if c.get('only') and c['only'] != one:
+                                    continue
+                                if bins_kind == 'edges':
+                                    m = judge(res, 'sparse', what, arr, [0, 1], [0, 1], lambda: [np.array(xe), np.array(ye)], f, sigma, one, expect_edges=(xe, ye))
+                                else:
+                                    fin = arr[np.isfinite(arr).all(axis=1)]
+                                    m = judge(res, 'sparse', what, arr, [0, 1], [0, 1], lambda: [np.array(xe), 4], f, sigma, one)
+                                masks.append((f, m))
+                                n += 1
+                            if bins_kind == 'edges' and not c.get('only'):
+                                nested_check(res, 'sparse', 'density2d(events %r, sigma=%r)' % (ev, sigma), masks, ing, dict(c))
+    res.sample({'events outside the grid': [repr(o) for o in outside], 'events inside': [repr(i) for i in inside], 'calls': n})
 
 
 def run_binspecs(c, res):
@@ -496,6 +537,10 @@ def run_case(c):
             xe, ye = [0.0, 1.0, 2.0, 3.0], [0.0, 2.0, 4.0]
             judge(res, 'placements', 'density2d(events %r, gate_fraction=%r, sigma=%r)' % (ev, c['f'], c['sigma']), np.array(ev), [0, 1], [0, 1],
                   lambda: [np.array(xe), np.array(ye)], c['f'], c['sigma'], c, expect_edges=(xe, ye))
+        elif k == 'sparse':
+            run_sparse(c, res)
+        elif k == 'sparse-one':
+            run_sparse(dict(kind='sparse', only=dict(c)), res)
         elif k == 'binspecs':
             run_binspecs(c, res)
         elif k == 'sample':
